@@ -244,12 +244,14 @@ package rosmar
 //@   ensures [C02,C03:WriteCas.cas-necessary]  err == nil && !ins ==> r.present && cas == r.cas
 //@   ensures [C02,C03:WriteCas.cas-rejected]   !ins && r.present && cas != r.cas ==> err != nil && db == old(db)
 //@   ensures [C02:WriteCas.cas-class]      !ins && r.present && cas != r.cas && count("sql") >= 2 ==> iscasmismatch(err) || ismissing(err) || iskeyexists(err) || isdberr(err)
+//@   ensures [C02:WriteCas.stale-cas-on-live-doc-is-a-cas-mismatch] count("sql") >= 1 && !ins && !bit(opt, 2) && hasBody(r) && cas != r.cas && !isnull(raw) ==> iscasmismatch(err) || isdberr(err) || isclosed(err) || istoobig(err)
+//@   ensures [C06:WriteCas.add-on-live-doc-is-key-exists] count("sql") >= 1 && bit(opt, 2) && !bit(opt, 16) && hasBody(r) && !isnull(raw) ==> iskeyexists(err) || isdberr(err) || isclosed(err) || istoobig(err)
 //@   ensures [C02:WriteCas.cas-actual]     iscasmismatch(err) ==> err.Actual == r.cas && err.Expected == cas
 //@   ensures [C06:WriteCas.insert-only-if] err == nil && ins ==> !hasBody(r)
 //@   ensures [C06:WriteCas.insert-refused] ins && hasBody(r) ==> err != nil && db == old(db)
 //@   ensures [C06:WriteCas.insert-creates] ins && !hasBody(r) && !(bit(opt, 2) && cas != 0 && !r.present) ==> err == nil || isdberr(err) || isclosed(err) || count("begin") == 0
 //@   ensures [C01,C05,C06,C07,C09,C14:WriteCas.body-stored] err == nil && !bit(opt, 16) && !isnull(raw) ==> sameDoc(r2, BODY(r, raw, wcJSON(opt, raw), absexp(exp, now), newCas))
-//@   ensures [C01,C05,C09:WriteCas.delete]     err == nil && !bit(opt, 16) && isnull(raw) && r.present ==> isnull(r2.value) && r2.tombstone == 1 && r2.cas == newCas
+//@   ensures [C01,C05,C09:WriteCas.delete]     err == nil && !bit(opt, 16) && isnull(raw) && r.present ==> isnull(r2.value) && r2.tombstone == 1 && r2.cas == newCas && r2.isJSON == 0
 //@   ensures [C01,C07:WriteCas.append]     err == nil && bit(opt, 16) && hasBody(r) && !isnull(raw) ==> r2.value == concat(r.value, raw) && r2.xattrs == r.xattrs && r2.exp == absexp(exp, now) && r2.tombstone == 0
 //@   ensures [C01:WriteCas.casout]         err == nil ==> casOut == newCas
 
@@ -744,9 +746,10 @@ package rosmar
 //@   modular in=removeXattrs
 //@ fn removeXattrs
 //@   requires validX(rawXattrs)
+//@   ensures [C07:removeXattrs.stops-early-only-on-error] leftloopearly() ==> err != nil
 //@   ensures [C07:removeXattrs.invalid-key-is-an-error] count("call:validateXattrKey") >= 1 && callret("validateXattrKey", 0) != nil ==> err != nil
 //@   loop 1001 invariant [C07:removeXattrs.only-removes] forall k: Str :: xattrs[k] == NOX || xattrs[k] == atentry(xattrs[k])
-//@   loop 1001 body [C07:removeXattrs.one-per-key] iter("mapdelete") <= 1
+//@   loop 1001 body [C07:removeXattrs.one-per-key] iter("mapdelete") == 1
 //@   ensures [C07:removeXattrs.never-adds] forall k: Str :: xget(rawResult, k) == NOX || xget(rawResult, k) == xget(rawXattrs, k)
 //@   ensures [C05,C07:removeXattrs.valid]  validX(rawResult) && (isnull(rawXattrs) ==> isnull(rawResult))
 //@
@@ -758,6 +761,7 @@ package rosmar
 //@   ensures [C01,C05,C14:DeleteWithXattrs.tombstone] result == nil ==> r.present && isnull(r2.value) && r2.tombstone == 1 && r2.exp == 0 && r2.isJSON == 0
 //@   ensures [C07:DeleteWithXattrs.xattrs-only-removed] result == nil ==> forall k: Str :: xget(r2.xattrs, k) == NOX || xget(r2.xattrs, k) == xget(r.xattrs, k)
 //@   ensures [C01:DeleteWithXattrs.missing] !r.present ==> result != nil
+//@   ensures [C07:DeleteWithXattrs.success-writes] result == nil ==> r2.present && r2.cas == newCas
 //@
 //@ fn (*Collection).DeleteSubDocPaths
 //@   let r = old(doc(c.id, key))
@@ -767,6 +771,7 @@ package rosmar
 //@   ensures [C07:DeleteSubDocPaths.body-kept] result == nil ==> r.present && r2.value == r.value && r2.isJSON == r.isJSON && r2.exp == r.exp && r2.tombstone == r.tombstone
 //@   ensures [C07:DeleteSubDocPaths.xattrs-only-removed] result == nil ==> forall k: Str :: xget(r2.xattrs, k) == NOX || xget(r2.xattrs, k) == xget(r.xattrs, k)
 //@   ensures [C01:DeleteSubDocPaths.missing] !r.present ==> result != nil
+//@   ensures [C07:DeleteSubDocPaths.success-writes] result == nil ==> r2.present && r2.cas == newCas
 //@
 //@ fn (*Collection).getRawWithXattrs
 //@   modular
@@ -850,6 +855,8 @@ package rosmar
 //@   ensures [C18:subdocWrite.writes-the-document-it-walked] count("call:Collection.WriteCas") >= 1 ==> mapid(callarg("Collection.WriteCas", 4)) == mapid(callarg("evalSubdocPath", 0))
 //@   mustfail [C18:subdocWrite.insert-can-succeed] !(insert && err == nil)
 //@   mustfail [C18:subdocWrite.write-can-succeed] !(!insert && err == nil)
+//@   ensures [C18:subdocWrite.no-cas-on-error] err != nil ==> casOut == 0
+//@   ensures [C14,C18:subdocWrite.writes-without-expiry-or-options] count("call:Collection.WriteCas") >= 1 ==> callarg("Collection.WriteCas", 2) == 0 && callarg("Collection.WriteCas", 5) == 0
 //@   ensures [C03,C18:subdocWrite.decodes-into-fresh-map] count("call:Collection.Get") >= 1 ==> calltargetnil("Collection.Get", 2)
 //@   ensures [C20:subdocWrite.unlocked] any: nolocks()
 
